@@ -2,6 +2,8 @@ package main
 
 import (
 	"bytes"
+	"crypto/sha256"
+	"fmt"
 	"strings"
 
 	"encoding/binary"
@@ -272,6 +274,25 @@ func execAttack(w *world.World, s Step) bool {
 		p.Queue = append([]*world.WireMsg{nw}, p.Queue[:len(p.Queue)-1]...)
 		w.Deliver(p)
 		return true
+	case "SMPTamper":
+		// the SMP payload of the (authentic) data message at the head of p's queue is replaced by a
+		// deviant one; the message is re-encrypted and re-authenticated with the session's keys
+		if len(p.Queue) == 0 {
+			return false
+		}
+		wm := p.Queue[0]
+		forged, class, name := deviantSMP(w, wm, s.I)
+		if forged == nil {
+			return false
+		}
+		p.Queue = p.Queue[1:]
+		w.SMPClass = class
+		nw := w.InjectRaw(p, forged)
+		w.SMPClass = ""
+		p.Queue = append([]*world.WireMsg{nw}, p.Queue[:len(p.Queue)-1]...)
+		nw.Abs["atkname"] = name
+		w.DeliverAttack(p, "smp-deviant/"+name)
+		return true
 	case "OldMacsTail":
 		// the unauthenticated list of disclosed MAC keys is changed: the message must still be accepted
 		if len(p.Queue) == 0 {
@@ -302,4 +323,160 @@ func execAttack(w *world.World, s Step) bool {
 		return true
 	}
 	return false
+}
+
+// smpFieldCount is the number of MPIs of each SMP TLV type.
+var smpFieldCount = map[uint16]int{2: 6, 7: 6, 3: 11, 4: 8, 5: 3}
+
+func boundary(honest *big.Int, rng *rand.Rand) []*big.Int {
+	one := big.NewInt(1)
+	rnd := new(big.Int).Rand(rng, ref.P)
+	return []*big.Int{big.NewInt(0), big.NewInt(1), new(big.Int).Sub(ref.P, one), new(big.Int).Set(ref.P), new(big.Int).Add(ref.P, one),
+		new(big.Int).Set(ref.Q), rnd, new(big.Int).Add(honest, one), new(big.Int).Sub(honest, one)}
+}
+
+// deviantSMP rebuilds the data message wm with variant number idx of its SMP TLV.
+// Returns the armoured message, the validity class of the payload and a name.
+func deviantSMP(w *world.World, wm *world.WireMsg, idx int) ([]byte, string, string) {
+	full, err := ref.Reassemble(wm.Raw)
+	if err != nil {
+		return nil, "", ""
+	}
+	raw, err := ref.Dearmor(full)
+	if err != nil {
+		return nil, "", ""
+	}
+	h, err := ref.ParseHeader(raw)
+	if err != nil || h.Type != ref.TypeData {
+		return nil, "", ""
+	}
+	d, err := ref.ParseData(h.Body)
+	if err != nil {
+		return nil, "", ""
+	}
+	mac, _ := wm.Abs["mac"].([]int)
+	if len(mac) != 2 || mac[0] <= 0 {
+		return nil, "", ""
+	}
+	keys := w.Reg.Sess(w.Reg.Secret(mac[0]), w.Reg.Secret(mac[1]))
+	pt := ref.CTR(keys.SendAES, d.Ctr[:], d.Enc)
+	text, tlvs, err := ref.SplitPlain(pt)
+	if err != nil {
+		return nil, "", ""
+	}
+	ti := -1
+	for i, t := range tlvs {
+		if _, ok := smpFieldCount[t.Type]; ok {
+			ti = i
+		}
+	}
+	if ti < 0 {
+		return nil, "", ""
+	}
+	t := tlvs[ti]
+	rng := rand.New(rand.NewSource(int64(w.Seed) + int64(idx)*977))
+	val := t.Value
+	question := []byte{}
+	if t.Type == 7 {
+		n := bytes.IndexByte(val, 0)
+		if n < 0 {
+			return nil, "", ""
+		}
+		question = val[:n+1]
+		val = val[n+1:]
+	}
+	if len(val) < 4 {
+		return nil, "", ""
+	}
+	count := int(binary.BigEndian.Uint32(val))
+	var mpis []*big.Int
+	rest := val[4:]
+	for i := 0; i < count; i++ {
+		if len(rest) < 4 {
+			return nil, "", ""
+		}
+		n := int(binary.BigEndian.Uint32(rest))
+		if len(rest) < 4+n {
+			return nil, "", ""
+		}
+		mpis = append(mpis, new(big.Int).SetBytes(rest[4:4+n]))
+		rest = rest[4+n:]
+	}
+	build := func(cnt uint32, ms []*big.Int, q []byte) []byte {
+		b := append([]byte{}, q...)
+		b = ref.PutWord(b, cnt)
+		for _, m := range ms {
+			b = ref.PutMPI(b, m)
+		}
+		return b
+	}
+	if t.Type == 3 && idx%7 == 3 && len(mpis) == 11 {
+		// SMP2 with degenerate group elements and proofs that are nevertheless consistent
+		// (g2b = g3b = Pb = 1, Qb = 0, cP = H(5, 1, 0)): passes every hash check; only the
+		// group-element test can refuse it
+		hashBN := func(ix byte, vs ...*big.Int) *big.Int {
+			h := sha256.New()
+			h.Write([]byte{ix})
+			for _, v := range vs {
+				h.Write(ref.PutMPI(nil, v))
+			}
+			return new(big.Int).SetBytes(h.Sum(nil))
+		}
+		r2 := new(big.Int).Rand(rng, ref.Q)
+		r3 := new(big.Int).Rand(rng, ref.Q)
+		one, zero := big.NewInt(1), big.NewInt(0)
+		c2 := hashBN(3, new(big.Int).Exp(ref.G, r2, ref.P))
+		c3 := hashBN(4, new(big.Int).Exp(ref.G, r3, ref.P))
+		cp := hashBN(5, one, zero)
+		ms := []*big.Int{one, c2, r2, one, c3, r3, one, zero, cp, big.NewInt(5), big.NewInt(7)}
+		b := ref.PutWord(nil, 11)
+		for _, m := range ms {
+			b = ref.PutMPI(b, m)
+		}
+		tlvs[ti] = ref.TLV{Type: 3, Value: b}
+		d.Enc = ref.CTR(keys.SendAES, d.Ctr[:], ref.JoinPlain(text, tlvs))
+		d.MAC = ref.HMAC1(keys.SendMAC, h.HdrBytes, d.Unsigned())
+		return ref.Armor(append(append([]byte{}, h.HdrBytes...), d.Bytes()...)), "bad", "t3-degenerate-consistent"
+	}
+	nfields := len(mpis)
+	nb := 9
+	total := nfields*nb + 5
+	if t.Type == 7 {
+		total++
+	}
+	v := idx % total
+	class, name := "bad", ""
+	var newVal []byte
+	switch {
+	case v < nfields*nb:
+		f, b := v/nb, v%nb
+		ms := append([]*big.Int{}, mpis...)
+		nv := boundary(mpis[f], rng)[b]
+		if nv.Sign() < 0 {
+			nv = big.NewInt(2)
+		}
+		if nv.Cmp(mpis[f]) == 0 {
+			nv = new(big.Int).Add(nv, big.NewInt(2))
+		}
+		ms[f] = nv
+		newVal = build(uint32(count), ms, question)
+		name = fmt.Sprintf("t%d-field%d-b%d", t.Type, f, b)
+	case v == nfields*nb:
+		newVal, class, name = build(uint32(count-1), mpis[:count-1], question), "corrupt", fmt.Sprintf("t%d-count-1", t.Type)
+	case v == nfields*nb+1:
+		newVal, class, name = build(uint32(count+1), mpis, question), "corrupt", fmt.Sprintf("t%d-count+1", t.Type)
+	case v == nfields*nb+2:
+		newVal, class, name = build(0, nil, question), "corrupt", fmt.Sprintf("t%d-count0", t.Type)
+	case v == nfields*nb+3:
+		newVal, class, name = build(0xffffffff, mpis, question), "corrupt", fmt.Sprintf("t%d-countmax", t.Type)
+	case v == nfields*nb+4:
+		newVal, class, name = build(0x10000000, mpis, question), "corrupt", fmt.Sprintf("t%d-count2^28", t.Type)
+	default:
+		// question without the terminating NUL
+		newVal, class, name = bytes.ReplaceAll(t.Value, []byte{0}, []byte{'x'}), "corrupt", "t7-question-without-nul"
+	}
+	tlvs[ti] = ref.TLV{Type: t.Type, Value: newVal}
+	d.Enc = ref.CTR(keys.SendAES, d.Ctr[:], ref.JoinPlain(text, tlvs))
+	d.MAC = ref.HMAC1(keys.SendMAC, h.HdrBytes, d.Unsigned())
+	return ref.Armor(append(append([]byte{}, h.HdrBytes...), d.Bytes()...)), class, name
 }
